@@ -55,6 +55,8 @@ impl Family for C18 {
       ("mode", Json::str(*rng.pick(&["threaded", "threaded", "threaded", "sync"]))),
       ("eager_polls", Json::Int(rng.below(3) as i64)),
       ("check_subscribed", Json::Bool(rng.below(2) == 0)),
+      // after this many Pending polls the future is polled with a different waker (as when it moves to another task)
+      ("new_waker_after", Json::Int(if rng.below(3) == 0 { rng.range(1, 2) as i64 } else { -1 })),
     ])
   }
   fn knobs(&self, rng: &mut Rng, _w: &Json, _tier: Tier) -> Json {
@@ -76,10 +78,13 @@ impl Family for C18 {
     let threaded = w.s("mode") != "sync";
     let eager = w.i("eager_polls").clamp(0, 4);
     let check_sub = w.b("check_subscribed");
+    let new_waker_after = if w.get("new_waker_after").is_some() { w.i("new_waker_after") } else { -1 };
     let src_log = Arc::new(Mutex::new(SrcLog::default()));
     let polls: Arc<Mutex<Vec<PollRec>>> = Arc::new(Mutex::new(Vec::new()));
     let flag = Arc::new(Flag { m: SimMutex::new(false), cv: Condvar::new(), wakes: Mutex::new(0) });
+    let flag_b = Arc::new(Flag { m: SimMutex::new(false), cv: Condvar::new(), wakes: Mutex::new(0) });
     let (sl, pl, fl, sc) = (src_log.clone(), polls.clone(), flag.clone(), script.clone());
+    let flb = flag_b.clone();
     let res = rt::run(cfg, move || {
       let handles = Arc::new(Mutex::new(Vec::new()));
       let o = if threaded {
@@ -88,10 +93,16 @@ impl Family for C18 {
         cold_source(vec![sc], sl, None, check_sub)
       };
       let mut fut = Box::pin(o.to_vec());
-      let waker = Waker::from(fl.clone());
-      let mut cx = Context::from_waker(&waker);
+      let mut fl = fl;
+      let mut waker = Waker::from(fl.clone());
       let mut n = 0;
       loop {
+        if new_waker_after >= 0 && n == new_waker_after {
+          // from now on the task is represented by another waker; only that one may be relied on
+          fl = flb.clone();
+          waker = Waker::from(fl.clone());
+        }
+        let mut cx = Context::from_waker(&waker);
         let seq_start = rt::seq();
         let r = fut.as_mut().poll(&mut cx);
         let seq_end = rt::seq();
